@@ -630,7 +630,18 @@ func (r *Runner) model(st *State, f *Frame, key string, callee *ssa.Function, ar
 		r.lockRelease(st, r.placeOf(args[0]), pos, true)
 		return true
 	case "(*sync.Mutex).TryLock", "(*sync.RWMutex).TryLock":
-		panic(unsupported("TryLock"))
+		// nondeterministic: either the lock is acquired (result true) or nothing happens (false)
+		lp := r.placeOf(args[0])
+		other := r.fork(st)
+		if res != nil {
+			f.regs[res] = Val{T: res.Type(), C: []Term{True}}
+			other.top().regs[res] = Val{T: res.Type(), C: []Term{False}}
+		}
+		st.trail = append(st.trail, "trylock:ok")
+		other.trail = append(other.trail, "trylock:busy")
+		r.lockAcquire(st, lp, "w", pos)
+		r.work = append(r.work, other)
+		return true
 	case "errors.New", "fmt.Errorf":
 		if res != nil {
 			f.regs[res] = r.newError(st, res.Type())
